@@ -249,6 +249,12 @@ class PathModel:
     def __truediv__(self, other):
         return PathModel(('join', self, other))
 
+    def with_suffix(self, suffix):
+        return PathModel(('with_suffix', self, suffix))
+
+    def with_name(self, name):
+        return PathModel(('with_name', self, name))
+
     def _format(self, spec):
         from .strings import OpaqueStr
         return OpaqueStr('<path>')
@@ -430,7 +436,9 @@ class HashModel:
         core.ctx().event('hash.update', b)
 
     def hexdigest(self):
-        return Opaque('hexdigest')
+        d = Opaque('hexdigest')
+        d.chunks = list(self.chunks)        # A-HASH: the digest stands for exactly the bytes fed so far
+        return d
 
 
 class Hashlib:
